@@ -48,7 +48,41 @@ impl Peer {
     }
 
     async fn do_rpc(&self, request: Request<Bytes>) -> Result<Response<Bytes>> {
+        #[cfg(bmwill_anemo_verif)]
+        let verif_call = crate::verif::next_id();
+        #[cfg(bmwill_anemo_verif)]
+        let mut verif_guard = crate::verif::DropGuard::new(
+            "rpc.drop",
+            crate::verif::json!({
+                "call": verif_call,
+                "gid": self.connection.verif_gid(),
+                "origin": crate::verif::origin(self.connection.origin()),
+                "stage": "opening",
+            }),
+        );
+        #[cfg(bmwill_anemo_verif)]
+        crate::verif::point(
+            "rpc.opening",
+            crate::verif::json!({ "call": verif_call, "route": request.route() }),
+        )
+        .await;
         let (send_stream, recv_stream) = self.connection.open_bi().await?;
+        #[cfg(bmwill_anemo_verif)]
+        let verif_stream = crate::verif::json!({
+            "call": verif_call,
+            "gid": self.connection.verif_gid(),
+            "origin": crate::verif::origin(self.connection.origin()),
+            "stream": send_stream.id().index(),
+            "route": request.route(),
+            "len": request.body().len(),
+        });
+        #[cfg(bmwill_anemo_verif)]
+        {
+            crate::verif::emit("rpc.open", verif_stream.clone());
+            verif_guard.set("stage", "opened".into());
+            verif_guard.set("stream", send_stream.id().index().into());
+            crate::verif::point("rpc.open", verif_stream.clone()).await;
+        }
         let mut send_stream =
             FramedWrite::new(send_stream, network_message_frame_codec(&self.config));
         let mut recv_stream =
@@ -59,7 +93,18 @@ impl Peer {
         //
 
         write_request(&mut send_stream, request).await?;
+        #[cfg(bmwill_anemo_verif)]
+        {
+            verif_guard.set("stage", "sent".into());
+            crate::verif::point("rpc.sent", verif_stream.clone()).await;
+        }
         send_stream.get_mut().finish()?;
+        #[cfg(bmwill_anemo_verif)]
+        {
+            crate::verif::emit("rpc.finish", verif_stream.clone());
+            verif_guard.set("stage", "finished".into());
+            crate::verif::point("rpc.finish", verif_stream.clone()).await;
+        }
 
         //
         // Read Response
@@ -69,6 +114,14 @@ impl Peer {
 
         // Set the PeerId of this peer
         response.extensions_mut().insert(self.peer_id());
+        #[cfg(bmwill_anemo_verif)]
+        {
+            verif_guard.disarm();
+            let mut fields = verif_stream;
+            fields["status"] = response.status().to_u16().into();
+            fields["resp_len"] = response.body().len().into();
+            crate::verif::emit("rpc.recv", fields);
+        }
 
         Ok(response)
     }
